@@ -509,6 +509,9 @@ func (s *Solver) fallbackTxt(ctx *Ctx, txt string, wantModel bool, evals []*Term
 	defer os.Remove(f.Name())
 	f.WriteString(txt)
 	f.Close()
+	if d := os.Getenv("GOSMT_KEEPQ"); d != "" {
+		os.WriteFile(d, []byte(txt), 0o644)
+	}
 	type alt struct {
 		name string
 		args []string
@@ -516,8 +519,8 @@ func (s *Solver) fallbackTxt(ctx *Ctx, txt string, wantModel bool, evals []*Term
 	var alts []alt
 	tl := strconv.Itoa(fallbackTimeoutS * 1000)
 	if s.kind != SolverCVC5 {
-		alts = append(alts, alt{"cvc5-1.0", []string{"cvc5", "--produce-models", "--tlimit=" + tl, f.Name()}})
 		alts = append(alts, alt{"cvc5-1.0(bv-as-int)", []string{"cvc5", "--produce-models", "--solve-bv-as-int=sum", "--tlimit=" + tl, f.Name()}})
+		alts = append(alts, alt{"cvc5-1.0", []string{"cvc5", "--produce-models", "--tlimit=" + tl, f.Name()}})
 	}
 	if s.kind != SolverZ3New {
 		alts = append(alts, alt{"z3-new-5.1", []string{"z3-new", "-T:" + strconv.Itoa(fallbackTimeoutS), f.Name()}})
@@ -528,10 +531,12 @@ func (s *Solver) fallbackTxt(ctx *Ctx, txt string, wantModel bool, evals []*Term
 		out, _ := exec.Command(a.args[0], a.args[1:]...).CombinedOutput()
 		s.Stats.TimeBy[a.name] += time.Since(t0).Seconds()
 		o := string(out)
-		if strings.Contains(o, "(error") {
+		first := strings.TrimSpace(strings.SplitN(o, "\n", 2)[0])
+		// an error before the verdict (e.g. an unsupported construct) makes the answer unusable; the
+		// "(error" printed by get-value after an unsat verdict is harmless
+		if strings.HasPrefix(first, "(error") || (first != "unsat" && strings.Contains(o, "(error")) {
 			continue
 		}
-		first := strings.TrimSpace(strings.SplitN(o, "\n", 2)[0])
 		switch first {
 		case "unsat":
 			s.Stats.Unsat++
